@@ -60,9 +60,22 @@ class LayoutFacts(Facts):
                 and isinstance(value_node.left, ast.Name) and ("FLOATCOPY", value_node.left.id) in st["F"]
             st["F"] = frozenset(x for x in st["F"] if x != ("CBUF", t.id))
             st["F"] = frozenset(x for x in st["F"] if x != ("FLOATCOPY", t.id))
+        # a plain alias of a local with a known layout keeps it:  q = pure
+        alias_facts = []
+        if isinstance(t, ast.Name) and isinstance(value_node, ast.Name):
+            alias_facts = [k for k in ("CBUF", "FLOATCOPY", "RANK1") if (k, value_node.id) in st["F"]]
         super().bind(t, value_node, val, st, stmt)
+        for k in alias_facts:
+            self.add(st, k, t.id)
         if keep_float:
             self.add(st, "FLOATCOPY", t.id)
+        # a freshly allocated array is C-contiguous, and float64 unless another dtype is asked for:  np.zeros(4) / np.zeros(4, dtype=float) / np.empty / np.ones / np.full
+        if isinstance(t, ast.Name) and isinstance(value_node, ast.Call) and ast.unparse(value_node.func) in ("np.zeros", "np.ones", "np.empty", "np.full", "numpy.zeros", "numpy.ones", "numpy.empty"):
+            kws = {k.arg: k.value for k in value_node.keywords if k.arg}
+            dt = kws.get("dtype", value_node.args[1] if (len(value_node.args) > 1 and not ast.unparse(value_node.func).endswith("full")) else None)
+            if (dt is None or ast.unparse(dt) in ("float", "np.float64", "numpy.float64")) and "order" not in kws:
+                self.add(st, "CBUF", t.id)
+                self.add(st, "FLOATCOPY", t.id)
         if isinstance(t, ast.Name) and _c_float_buffer(value_node):
             self.add(st, "CBUF", t.id)
         if isinstance(t, ast.Name) and isinstance(value_node, ast.Call) and ast.unparse(value_node.func) in ("np.array", "numpy.array") \
@@ -278,6 +291,16 @@ def so3_gate(chk, prog, ref, var_hint="in_SO3"):
                 for k in set(e1) | set(e2):
                     env[k] = e1.get(k, set()) & e2.get(k, set()) if (k in e1 and k in e2) else set()
     walk(f.body(), {})
+    if not results:
+        # the gate may live in a validator the function calls as a statement (`_assert_rotation_matrix(dcm)`): analyse that helper instead
+        for s_ in f.body():
+            if isinstance(s_, ast.Expr) and isinstance(s_.value, ast.Call) and isinstance(s_.value.func, ast.Name):
+                g = f.module.funcs.get(s_.value.func.id)
+                if g is not None:
+                    walk(g.body(), {})
+                    if results:
+                        chk.touch(g)
+                        break
     if not results:
         chk.record("SO3-GATE", ref, "raise unless det ~ 1 and A A^T ~ I", verdict="VIOLATION")
         chk.finding("SO3-GATE", f.module.rel, f.qname, "no `if not <gate>: raise`", "the SO(3) gate (raise unless det ~ 1 and A A^T ~ I) was not found", line=f.node.lineno)
